@@ -32,7 +32,7 @@ def split_collect(var):
         def rep(m):
             return ('let __vx_it = ' + m.group(1) + ';\n                let ghost __vx_rs = __vx_it.items();\n'
                     '                let __vx_c = __vx_it.collect::<Result<Vec<_>>>();\n'
-                    '                proof { lemma_items(self, *slots, *expr, __vx_rs, __vx_c); }\n'
+                    '                proof { lemma_items(self, *slots, *expr, __vx_rs, __vx_c); lemma_list_results(self, *slots, *expr, __vx_rs, __vx_c); }\n'
                     '                let ' + var + ' = __vx_c?;\n                let ghost __vx_pvs = ' + var + '@;')
         return rx.subn(rep, text, count=1)
     return f
@@ -44,7 +44,9 @@ def split_collect_rec(text):
                 '                let __vx_c = __vx_it.collect::<Result<Vec<_>>>();\n'
                 '                proof {\n'
                 '                    assert forall|i: int| 0 <= i < __vx_rs.len() implies agrees_pv(#[trigger] snd_results(__vx_rs)[i], sem(self, *slots, node_items(*expr)[i])) by {}\n'
-                '                    lemma_items_rec(self, *slots, *expr, __vx_rs, __vx_c);\n                }\n'
+                '                    lemma_items_rec(self, *slots, *expr, __vx_rs, __vx_c);\n'
+                '                    assert forall|i: int| 0 <= i < __vx_rs.len() implies psound(self, *slots, node_items(*expr)[i], #[trigger] snd_results(__vx_rs)[i]) by {}\n'
+                '                    lemma_list_results_rec(self, *slots, *expr, __vx_rs, __vx_c);\n                }\n'
                 '                let map = __vx_c?;')
     return rx.subn(rep, text, count=1)
 
@@ -62,6 +64,13 @@ def split_record_value(text):
                                 }
                                 assert(pair_kinds(__vx_pairs.items()) =~= rec_pairs(ko, ks));
                             }
+                            let ks2 = kinds_of(__vx_vs);
+                            assert forall|j: int| 0 <= j < ks2.len() implies #[trigger] pair_kinds(__vx_pairs.items())[j] == rec_pairs(ko, ks2)[j] && (#[trigger] __vx_evalled@[j]) is Value && __vx_evalled@[j]->Value_0.value == ks2[j] by {
+                                assert(__vx_map@[j] == (__vx_names@[j], __vx_evalled@[j]));
+                                assert(__vx_evalled@[j] == PartialValue::Value(__vx_vs[j]));
+                            }
+                            assert(pair_kinds(__vx_pairs.items()) =~= rec_pairs(ko, ks2));
+                            assert(all_values(__vx_evalled@, ks2));
                         }
                         Ok(Value::record(__vx_pairs, loc.cloned()).into())'''
     return rx.subn(lambda m: rep, text, count=1)
@@ -101,6 +110,8 @@ ITEMS = [
     Raw(file='../_eval/sem_ops.rs', tag='spec'),
     Raw(file='spec.rs', tag='spec'),
     Raw(file='lemmas.rs', tag='spec'),
+    Raw(file='psound.rs', tag='spec'),
+    Raw(file='rules.rs', tag='spec'),
 
     Fn(EVAL, "impl<'e> Evaluator<'e> > fn interpret", wrap=W,
        ensures=[('sem', 'match sem(self, *slots, *e) { Res::Val(k) => (r is Ok && r->Ok_0.value == k) || (r is Err && r->Err_0 is RecursionLimit), Res::Unk => true, s => r is Err && agrees_pv(Err::<PartialValue, EvaluationError>(r->Err_0), s) }')]),
@@ -117,16 +128,27 @@ ITEMS = [
             Res::Unk => true,
             _ => r is Err,
         }''')]),
-    Fn(EVAL, "impl<'e> Evaluator<'e> > fn partial_interpret", wrap=W, attrs=NODEC,
-       ensures=[('sem', 'agrees_pv(r, sem(self, *slots, *expr))')],
+    Fn(EVAL, "impl<'e> Evaluator<'e> > fn partial_interpret", wrap=W, attrs=NODEC, props=['C02', 'C13'],
+       ensures=[('sem', 'agrees_pv(r, sem(self, *slots, *expr))'), ('residual', 'psound(self, *slots, *expr, r)')],
+       proof_start='proof { lemma_kind_rules(self, *slots); }',
        rewrites=[
            ClosureRw(r'pval', 'pval: PartialValue', ret='PartialValue', ensures='pval is Value <==> r is Value, pval is Value ==> r->Value_0.value == pval->Value_0.value, pval is Residual ==> r->Residual_0.expr_kind == pval->Residual_0.expr_kind'),
            ClosureRw(r'err', 'err: EvaluationError', ret='EvaluationError', ensures='r.same_class(err)'),
        ]),
-    Fn(EVAL, "impl<'e> Evaluator<'e> > fn partial_interpret_internal", wrap=W, attrs=NODEC,
-       ensures=[('sem', 'agrees_pv(r, sem(self, *slots, *expr))')],
-       proof_start='broadcast use axiom_btreemap_order_ok;',
+    Fn(EVAL, "impl<'e> Evaluator<'e> > fn partial_interpret_internal", wrap=W, attrs=NODEC + ['verifier::rlimit(300)', 'verifier::spinoff_prover'], props=['C02', 'C13'],
+       ensures=[('sem', 'agrees_pv(r, sem(self, *slots, *expr))'), ('residual', 'psound(self, *slots, *expr, r)')],
+       proof_start="""broadcast use axiom_btreemap_order_ok, axiom_projectable, axiom_ext_residual;
+        proof {
+            lemma_node_rules(self, *slots, *expr); lemma_aux_rules(self, *slots);
+            // the terms the contracts of eval_if / get_attr trigger on
+            if expr.expr_kind is If { assert(if_of(*expr, *expr.expr_kind->test_expr, *expr.expr_kind->then_expr, *expr.expr_kind->else_expr)); }
+            if expr.expr_kind is GetAttr { assert(ga_of(*expr, *expr.expr_kind->GetAttr_expr, expr.expr_kind->GetAttr_attr)); }
+        }""",
        hints=[(r'let map = __vx_c\?;', 'let ghost __vx_map = map;'),
+              (r'let vals: Vec<_> = vals\.collect\(\);', '''proof {
+                            assert forall|j: int| 0 <= j < __vx_pvs.len() implies (#[trigger] __vx_pvs[j]) is Value && __vx_pvs[j]->Value_0.value == kinds_of(vals@)[j] by { assert(__vx_pvs[j] == PartialValue::Value(vals@[j])); }
+                            assert(all_values(__vx_pvs, kinds_of(vals@)));
+                        }'''),
               (r'let \(names, evalled\): \(Vec<SmolStr>, Vec<PartialValue>\) = vx_unzip\(map\);', '''let ghost __vx_names = names; let ghost __vx_evalled = evalled;
                 proof {
                     let ko = expr.expr_kind->Record_0.key_order();
@@ -134,6 +156,7 @@ ITEMS = [
                     assert forall|i: int| 0 <= i < ko.len() implies #[trigger] names@[i] == ko[i] by { assert(map@[i] == (names@[i], evalled@[i])); }
                     assert forall|i: int, j: int| 0 <= i < j < names@.len() implies names@[i] != names@[j] by { assert(ko[i] != ko[j]); }
                     assert forall|i: int| 0 <= i < evalled@.len() implies #[trigger] evalled@[i] == __vx_map@[i].1 by { assert(__vx_map@[i] == (names@[i], evalled@[i])); }
+                    assert(pvs_sound(self, *slots, *expr, evalled@));
                     if exists|k: int| 0 <= k < evalled@.len() && evalled@[k] is Residual {
                         let k = choose|k: int| 0 <= k < evalled@.len() && evalled@[k] is Residual;
                         assert(__vx_map@[k].1 is Residual);
@@ -154,10 +177,10 @@ ITEMS = [
                 lambda t: re.subn(r'\.map_err\(\|mut e\|\s*\{.*?\n\s*e\n\s*\}\)\?', '.map_err(|e: EvaluationError| -> (r: EvaluationError) ensures r.same_class(e) { vx_in_advice(e, &arg2) })?', t, count=1, flags=re.S), 1),
            (r'\.cloned\(\),\n(\s*)\}\n(\s*)\}\n(\s*)BinaryOp::HasTag', r'.vx_cloned(),\n\1}\n\2}\n\3BinaryOp::HasTag', 1),
            (r'args\s*\.iter\(\)', 'vx_arc_vec_iter(args)', 1), (r'items\s*\.iter\(\)', 'vx_arc_vec_iter(items)', 1),
-           ClosureRw(r'arg', 'arg: &Expr', ret='Result<PartialValue>', requires='true', ensures='agrees_pv(r, sem(self, *slots, *arg))'),
-           ClosureRw(r'item', 'item: &Expr', ret='Result<PartialValue>', requires='true', ensures='agrees_pv(r, sem(self, *slots, *item))'),
+           ClosureRw(r'arg', 'arg: &Expr', ret='Result<PartialValue>', requires='true', ensures='agrees_pv(r, sem(self, *slots, *arg)) && psound(self, *slots, *arg, r)'),
+           ClosureRw(r'item', 'item: &Expr', ret='Result<PartialValue>', requires='true', ensures='agrees_pv(r, sem(self, *slots, *item)) && psound(self, *slots, *item, r)'),
            ClosureRw(r'\(k, v\)', '_vxp: (&SmolStr, &Expr)', ret='Result<(SmolStr, PartialValue)>', requires='true', destructure='(k, v)',
-                     ensures='(r is Ok ==> r->Ok_0.0 == *_vxp.0) && agrees_pv(match r { Ok(p) => Ok::<PartialValue, EvaluationError>(p.1), Err(err) => Err::<PartialValue, EvaluationError>(err) }, sem(self, *slots, *_vxp.1))'),
+                     ensures='(r is Ok ==> r->Ok_0.0 == *_vxp.0) && agrees_pv(match r { Ok(p) => Ok::<PartialValue, EvaluationError>(p.1), Err(err) => Err::<PartialValue, EvaluationError>(err) }, sem(self, *slots, *_vxp.1)) && psound(self, *slots, *_vxp.1, match r { Ok(p) => Ok::<PartialValue, EvaluationError>(p.1), Err(err) => Err::<PartialValue, EvaluationError>(err) })'),
            FnRw('statement split of `let map = map.iter().map(..).collect::<Result<Vec<_>>>()?;` in the Record arm (order preserved) and the list lemma', split_collect_rec, 1),
            FnRw('statement split of `Ok(Value::record(ZIP, loc.cloned()).into())`: the zipped pairs are bound to a local first', split_record_value, 1),
            FnRw('bind the sub-expressions of `let args = ITER.map(..).collect::<Result<Vec<_>>>()?;` to locals (statement split, order preserved) and insert the list lemma', split_collect('args'), 1),
@@ -171,6 +194,8 @@ ITEMS = [
                             assert forall|j: int| 0 <= j < ks.len() implies kinds_of(vs)[j] == ks[j] by { assert(__vx_pvs[j] == PartialValue::Value(vs[j])); }
                             assert(kinds_of(vs) =~= ks);
                         }
+                        assert forall|j: int| 0 <= j < __vx_pvs.len() implies (#[trigger] __vx_pvs[j]) is Value && __vx_pvs[j]->Value_0.value == kinds_of(vals.items())[j] by { assert(__vx_pvs[j] == PartialValue::Value(vals.items()[j])); }
+                        assert(all_values(__vx_pvs, kinds_of(vals.items())));
                     } Ok(Value::set(vals, loc.cloned()).into()) },''', 1),
            (r'map\.into_iter\(\)\.unzip\(\)', 'vx_unzip(map)', 1),
            (r'names\.into_iter\(\)\.zip\((\w+)\)', r'vx_zip(names, \1)', 1),
@@ -180,7 +205,8 @@ ITEMS = [
            (r'efunc\.call\(&vals\)', 'efunc.call(vals.as_slice())', 1),
        ]),
     Fn(EVAL, "impl<'e> Evaluator<'e> > fn unknown_to_partialvalue", wrap=W, props=['C02', 'C13'],
-       ensures=[('sem', 'agrees_pv(r, sem_unknown(self, *u))')],
+       ensures=[('sem', 'agrees_pv(r, sem_unknown(self, *u))'), ('residual', 'usound(self, *u, r)')],
+       proof_start='proof { assert forall|slots: SlotEnv, ev2: &Evaluator<\'_>| #[trigger] refines(self, slots, ev2) implies (self.spec_unknown(u.name) is Some ==> ev2.spec_unknown(u.name) == self.spec_unknown(u.name)) && ev2.spec_unknown(u.name) is Some by { reveal(refines); } }',
        rewrites=[(r'self\.unknowns_mapper\.as_ref\(\)\(&u\.name\)', 'self.vx_map_unknown(&u.name)', 1),
                  cmp_rw(r'v\.type_of\(\)', r'\*t', 'vx_type', rhs_out='t')]),
     Fn(EVAL, "impl<'e> Evaluator<'e> > fn eval_in", wrap=W, attrs=['verifier::loop_isolation(false)'],
@@ -201,36 +227,49 @@ ITEMS = [
             else { assert(us.len() == 1); assert(!(*uid1 == *us[0] || (entity1 is Some && entity1->Some_0.spec_ancestors().contains(*us[0])))); }
         }'''),
     Fn(EVAL, "impl<'e> Evaluator<'e> > fn eval_if", wrap=W, attrs=NODEC,
-       ensures=[('sem', 'agrees_pv(r, match want_bool(sem(self, *slots, *guard)) { Res::Val(k) => if k == vbool(true) { sem(self, *slots, **consequent) } else { sem(self, *slots, **alternative) }, x => x })')],
+       ensures=[('sem', 'agrees_pv(r, match want_bool(sem(self, *slots, *guard)) { Res::Val(k) => if k == vbool(true) { sem(self, *slots, **consequent) } else { sem(self, *slots, **alternative) }, x => x })'),
+                ('residual', 'forall|e: Expr| #[trigger] if_of(e, *guard, **consequent, **alternative) ==> psound(self, *slots, e, r)')],
+       proof_start="""proof {
+            lemma_aux_rules(self, *slots);
+            assert forall|e: Expr| #[trigger] if_of(e, *guard, **consequent, **alternative) implies rules_if(self, *slots, e, *guard, **consequent, **alternative) by {
+                lemma_rules_if(self, *slots, e, *guard, arc_e(consequent), arc_e(alternative));
+            }
+        }""",
        rewrites=[
            ClosureRw(r'r', 'r: PartialValue', ret='Arc<Expr>', ensures='*res == expr_of_pv(r)', count=2, rname='res'),
            (r'\.unwrap_or_else\(\|_\| consequent\.clone\(\)\)', '.unwrap_or_else(|_vx: EvaluationError| -> (res: Arc<Expr>) ensures res == *consequent { consequent.clone() })', 1),
            (r'\.unwrap_or_else\(\|_\| alternative\.clone\(\)\)', '.unwrap_or_else(|_vx: EvaluationError| -> (res: Arc<Expr>) ensures res == *alternative { alternative.clone() })', 1),
        ]),
     Fn(EVAL, "impl<'e> Evaluator<'e> > fn get_attr", wrap=W, attrs=NODEC, props=['C02', 'C13'],
-       ensures=[('sem', 'agrees_pv(r, match sem(self, *slots, *expr) { Res::Val(k) => sem_get_attr(self, k, *attr), x => x })')],
+       ensures=[('sem', 'agrees_pv(r, match sem(self, *slots, *expr) { Res::Val(k) => sem_get_attr(self, k, *attr), x => x })'),
+                ('residual', 'forall|e: Expr| #[trigger] ga_of(e, *expr, *attr) ==> psound(self, *slots, e, r)')],
+       proof_start="""broadcast use axiom_projectable;
+        proof {
+            lemma_aux_rules(self, *slots); lemma_kind_rules(self, *slots);
+            assert forall|e: Expr| #[trigger] ga_of(e, *expr, *attr) implies rules_getattr(self, *slots, e, *expr, *attr) by { lemma_rules_getattr(self, *slots, e, *expr, *attr); }
+        }""",
        rewrites=FIELDS[4:5] + [
            (r'map\.as_ref\(\)\s*\.iter\(\)', 'map.as_ref().iter()', 1),
            ClosureRw(r'\(k, v\)', '_vxp: (&SmolStr, &Expr)', ret='Option<&Expr>', ensures='r == (if *_vxp.0 == *attr { Some(_vxp.1) } else { None })', destructure='(k, v)'),
            
-           ClosureRw(r'e', 'e: &Expr', ret='Result<PartialValue>', requires='true', ensures='true'),
+           ClosureRw(r'e', 'e: &Expr', ret='Result<PartialValue>', requires='true', ensures='psound(self, *slots, *e, r)'),
            ClosureRw(r'k', 'k: &SmolStr', ret='bool', ensures='r == (*k == *attr)'),
            cmp_rw(r'\bk', r'attr\b', 'vx_smolstr'),
            ClosureRw(r'v', 'v: &Value', ret='PartialValue', ensures='r == PartialValue::Value(*v)'),
            ClosureRw(r'pv', 'pv: &PartialValue', ret='Result<PartialValue>', requires='true',
-                     ensures='agrees_pv(r, match *pv { PartialValue::Value(v) => Res::Val(v.value), PartialValue::Residual(x) => match x.expr_kind { ExprKind::Unknown(u) => sem_unknown(self, u), _ => Res::Unk } })'),
+                     ensures='agrees_pv(r, match *pv { PartialValue::Value(v) => Res::Val(v.value), PartialValue::Residual(x) => match x.expr_kind { ExprKind::Unknown(u) => sem_unknown(self, u), _ => Res::Unk } }) && (match *pv { PartialValue::Value(_) => r == Ok::<PartialValue, EvaluationError>(*pv), PartialValue::Residual(x) => match x.expr_kind { ExprKind::Unknown(u) => usound(self, u, r), _ => r == Ok::<PartialValue, EvaluationError>(*pv) } })'),
            (r'\.ok_or_else\(\|\| \{(\s*)EvaluationError::record_attr_does_not_exist\(', r'.ok_or_else(|| -> (e: EvaluationError) ensures e is RecordAttrDoesNotExist {\1EvaluationError::record_attr_does_not_exist(', 2),
            (r'\.ok_or_else\(\|\| \{(\s*)EvaluationError::entity_attr_does_not_exist\(', r'.ok_or_else(|| -> (e: EvaluationError) ensures e is EntityAttrDoesNotExist {\1EvaluationError::entity_attr_does_not_exist(', 1),
            (r'nonempty!\[\s*Type::Record,\s*Type::entity_type\(names::ANY_ENTITY_TYPE\.clone\(\)\),\s*\]', 'nonempty2(Type::Record, Type::entity_type(names::any_entity_type()))', 1),
        ]),
     Fn(EVAL, "impl<'e> Evaluator<'e> > fn short_circuit_residual_and_value", wrap=W, props=['C13'],
-       ensures=[('sound', 'r is Some ==> op == BinaryOp::Eq && typed_unknown(*e1) is Some && v2.value is Lit && v2.value->Lit_0 is EntityUID && sound_eq_answer(r, |x: EntityUID| x.spec_type() == typed_unknown(*e1)->Some_0, |y: EntityUID| y == *v2.value->Lit_0->EntityUID_0)')]),
+       ensures=[('sound', 'r is Some ==> sc_rv(*e1, *v2, op, r->Some_0)')]),
     Fn(EVAL, "impl<'e> Evaluator<'e> > fn short_circuit_value_and_residual", wrap=W, props=['C13'],
-       ensures=[('sound', 'r is Some ==> op == BinaryOp::Eq && typed_unknown(*e2) is Some && v1.value is Lit && v1.value->Lit_0 is EntityUID && sound_eq_answer(r, |x: EntityUID| x == *v1.value->Lit_0->EntityUID_0, |y: EntityUID| y.spec_type() == typed_unknown(*e2)->Some_0)')],
+       ensures=[('sound', 'r is Some ==> sc_vr(*v1, *e2, op, r->Some_0)')],
        rewrites=[cmp_rw(r'uid1\.entity_type\(\)', r'type_of_unknown', 'vx_etype')]),
     Fn(EVAL, "impl<'e> Evaluator<'e> > fn short_circuit_two_typed_residuals", wrap=W, props=['C13'],
-       ensures=[('sound', 'r is Some ==> op == BinaryOp::Eq && typed_unknown(*e1) is Some && typed_unknown(*e2) is Some && sound_eq_answer(r, |x: EntityUID| x.spec_type() == typed_unknown(*e1)->Some_0, |y: EntityUID| y.spec_type() == typed_unknown(*e2)->Some_0)')],
+       ensures=[('sound', 'r is Some ==> sc_rr(*e1, *e2, op, r->Some_0)')],
        rewrites=[cmp_rw(r'\bt1', r't2\b', 'vx_etype')]),
 ]
-VERUS_ARGS = ['--multiple-errors', '20']
+VERUS_ARGS = ['--multiple-errors', '3']
 CANARIES = []
